@@ -639,9 +639,13 @@ def describe_assignment_target(
                 "STORE_ATTR",
             ):
                 obj = stack.pop()
+                if obj[:1].isdigit() or obj[:1] == "-":
+                    # attribute of a numeric constant: `1.x` wouldn't parse
+                    obj = f"({obj})"
                 stack.append(f"{obj}.{insn.argval}")
             elif insn.opname == "LOAD_CONST":
-                stack.append(insn.argrepr)
+                # repr(Ellipsis) is the name of a builtin, not the constant
+                stack.append("..." if insn.argval is Ellipsis else insn.argrepr)
             elif insn.opname in ("BINARY_SUBSCR", "STORE_SUBSCR"):
                 index = stack.pop()
                 container = stack.pop()
